@@ -13,7 +13,7 @@ func init() {
 	register(&Driver{
 		ID:        "C13",
 		Technique: "exhaustive enumeration of runner sets (<=3 runners over three ordering classes x five Order values, lazy or eager) x each choice of failing runner x component backgrounds (chain, cycle, lazy dependency) x iteration orders, each a real start; event-log oracle",
-		Rule:      "programs = runner sequences of length <=3 over 11 symbols x {all eager, all lazy (thorough: every lazy mask)} x failing runner in {none, 1st, 2nd, 3rd} x 3 backgrounds x 2 base orders; non-trivial = >=2 runners or a failing runner",
+		Rule:      "programs = runner sequences of length <=3 (thorough <=4) over 11 symbols x {all eager, all lazy (thorough: every lazy mask)} x failing runner in {none, 1st, 2nd, 3rd} x 3 backgrounds x 2 base orders; non-trivial = >=2 runners or a failing runner",
 		Assumptions: []string{
 			"runners with equal rank (same class and Order, or both unordered) may run in any relative order; when one of them fails the others of equal rank may or may not have run",
 			"more than three runners are not covered",
@@ -45,9 +45,16 @@ func c13Gen(c *core.Ctx) func(yield func(c13Case) bool) {
 				}
 			}
 		}
-		seqs(3, 11, func(s []int) bool {
+		maxLen := 3
+		if c.Thorough() {
+			maxLen = 4
+		}
+		seqs(maxLen, 11, func(s []int) bool {
 			n := len(s)
 			masks := []int{0, 1<<n - 1}
+			if n == 4 {
+				return c13Yield4(yield, s)
+			}
 			if c.Thorough() {
 				masks = nil
 				for m := 0; m < 1<<n; m++ {
@@ -255,4 +262,14 @@ func c13Run(c *core.Ctx) {
 			c.Sample(map[string]any{"runners": symn, "lazy_mask": cs.LazyMask, "failing": cs.Fail, "background": cs.Background, "log": log})
 		}
 	})
+}
+
+// c13Yield4: four runners (thorough): all eager, every failing position, one background, one order.
+func c13Yield4(yield func(c13Case) bool, s []int) bool {
+	for f := -1; f < 4; f++ {
+		if !yield(c13Case{s, 0, f, 1, false, 0}) {
+			return false
+		}
+	}
+	return true
 }
